@@ -10,7 +10,10 @@ use std::cmp::{max, min};
 use std::num::NonZeroUsize;
 use std::sync::atomic::{AtomicU32, AtomicUsize, Ordering};
 use std::sync::Arc;
+#[cfg(not(undermoon_verif))]
 use std::time::{Duration, Instant};
+#[cfg(undermoon_verif)]
+use {std::time::Duration, tokio::time::Instant};
 
 pub struct BatchStats {
     last_wbuf_flush_size: AtomicUsize,
